@@ -17,3 +17,9 @@ mod c16_action;
 mod c17_convert;
 #[cfg(kani)]
 mod c18_candles;
+#[cfg(kani)]
+mod c04_select;
+#[cfg(kani)]
+mod c07_long;
+#[cfg(kani)]
+mod c08_const;
